@@ -19,20 +19,20 @@ PROPS["C10"] = {
              "y>=p, small y, p-small, torsion spellings, single-bit mutations of valid encodings, boundary catalogue, uniform; sign-bit "
              "flips), arbitrary-length byte strings, points [a]B+T_j in 6 projective representations with catalogue/uniform scaling "
              "factors paired with a related point (same / negated / +torsion / same-x / +L / independent), Montgomery u strings "
-             "(curve, twist, -1, >=p, bit 255) x sign; non-trivial = string is non-canonical, off-curve, of wrong length, or not of "
-             "prime order; point has a torsion component or Z != 1; u is off-curve / non-canonical / has bit 255 / maps to a non-prime-order point; "
+             "(curve, twist, -1, >=p, bit 255) x sign; non-trivial = string is non-canonical, off-curve, of wrong length, or a "
+             "small-order point; point has a torsion component or Z != 1; u is off-curve / non-canonical / has bit 255 / maps to a small-order point; "
              "distinct = FNV-64 of the serialised case"),
     "assumptions": ["math/big is correct", "verifref field/curve constants are computed from their definitions and self-tested"],
     "units": [{
         "pkg": "curve", "configs": ALL4,
         "tests": {
-            "TestC10Decode": T(16000, 1200000),
+            "TestC10Decode": T(20000, 1000000),
             "TestC10DecodeList": LIST(),
             "TestC10Lengths": LIST(),
-            "TestC10AnyLen": T(8000, 400000),
-            "TestC10Points": T(8000, 600000),
+            "TestC10AnyLen": T(6000, 200000),
+            "TestC10Points": T(6000, 200000),
             "TestC10TorsionList": LIST(),
-            "TestC10Montgomery": T(12000, 800000),
+            "TestC10Montgomery": T(12000, 500000),
         },
     }],
 }
